@@ -286,8 +286,24 @@ func GenC16Session(seed uint64) *Scenario {
 	}
 	probe()
 	n := rng.Range(3, 7)
+	lastPos := ""
+	var lastRoot *rules.Pos
 	for s := 0; s < n; s++ {
 		posCmd, root := genPosition(rng, 3)
+		if lastPos != "" && lastRoot != nil && rng.Chance(0.35) && len(lastRoot.LegalMoves()) > 0 {
+			// a game in progress: the same start with the move list extended by a few moves
+			q := lastRoot.Clone()
+			ext := Playout(q, rng.Range(1, 4), rng)
+			if len(ext) > 0 && len(q.LegalMoves()) > 0 {
+				if strings.Contains(lastPos, " moves ") {
+					posCmd = lastPos + " " + strings.Join(ext, " ")
+				} else {
+					posCmd = lastPos + " moves " + strings.Join(ext, " ")
+				}
+				root = q
+			}
+		}
+		lastPos, lastRoot = posCmd, root.Clone()
 		if rng.Intn(60) == 0 {
 			// a very long (but legal) game: more plies than any real game has
 			// (beyond the engine's documented capacity of 512 plies: the engine
